@@ -4,11 +4,15 @@ Import ListNotations.
 Local Open Scope Z_scope.
 
 (* ---------- interface: the decision regenerated from save_util.py ---------- *)
+(* proved by cases on the two tests, so equivalent boolean rewritings of the source still check *)
 Lemma frag_roundtrippable v : roundtrippable v = sl_roundtrippable (dumps_ok v) (sl_same_scalar (same_vt v (jnorm v))).
-Proof. reflexivity. Qed.
+Proof.
+  unfold roundtrippable, sl_roundtrippable, sl_same_scalar.
+  destruct (dumps_ok v); destruct (same_vt v (jnorm v)); reflexivity.
+Qed.
 
 Lemma frag_keep_plain v : is_plain (store_item v) = sl_keep_plain (dumps_ok v) (roundtrippable v).
-Proof. unfold store_item, sl_keep_plain. destruct (roundtrippable v); reflexivity. Qed.
+Proof. unfold store_item, sl_keep_plain. destruct (dumps_ok v); destruct (roundtrippable v); reflexivity. Qed.
 
 (* ---------- induction principle for the nested type ---------- *)
 Section JvInd.
